@@ -29,6 +29,10 @@ impl VarInt {
 
     /// Tries to construct a [`VarInt`] from `u64`.
     #[inline(always)]
+    #[cfg_attr(kani, kani::ensures(|r: &Result<Self, VarIntBoundsExceeded>| match r {
+        Ok(v) => value <= crate::verif_kani::spec::VARINT_MAX && v.0 == value,
+        Err(_) => value > crate::verif_kani::spec::VARINT_MAX,
+    }))]
     pub const fn try_from_u64(value: u64) -> Result<Self, VarIntBoundsExceeded> {
         if value <= Self::MAX.0 {
             Ok(Self(value))
@@ -58,6 +62,8 @@ impl VarInt {
     /// a variable-length integer.
     ///
     /// This value cannot be larger than [`Self::MAX_SIZE`].
+    #[cfg_attr(kani, kani::requires(self.0 <= crate::verif_kani::spec::VARINT_MAX))]
+    #[cfg_attr(kani, kani::ensures(|r: &usize| *r == crate::verif_kani::spec::varint_len(self.0)))]
     pub const fn size(self) -> usize {
         if self.0 <= 63 {
             1
@@ -73,6 +79,7 @@ impl VarInt {
     }
 
     /// Returns how long the variable-length integer is, given its first byte.
+    #[cfg_attr(kani, kani::ensures(|r: &usize| *r == crate::verif_kani::spec::varint_len_from_first(first)))]
     pub const fn parse_size(first: u8) -> usize {
         match first >> 6 {
             0 => 1,
